@@ -14,6 +14,10 @@ Observation: per struct Si  `unsigned long vi[] = {sizeof, _Alignof, offsetof...
 `struct Si qi_j = {.m = -1};` whose data image shows offset AND bit position; thousands per unit, per target.
 Oracle: vlib/layout.py (R) per target; witnesses clang --target x3 and gcc (host x86_64) compiling the same unit
 to assembly.  A violation is reported only where cproc != R and every witness of that target == R.
+
+Keys: a difference that a triaged known-defect hypothesis (explain(): a variant of R describing ONE root cause) reproduces
+exactly is filed under that root cause; every other difference gets <stratum>/<feature of the type>-<what differs>.
+States / transitions of the layout machine are counted inside layout.layout() while R runs.
 """
 import itertools
 import struct
